@@ -439,6 +439,166 @@ func (v *VirtualLog) subproof(m, n int64, b bool) []tlog.Hash {
 // Proof is PROOF(m, D[n]) of RFC 6962 section 2.1.2 (0 < m <= n).
 func (v *VirtualLog) Proof(m, n int64) []tlog.Hash { return v.subproof(m, n, true) }
 
+// ---------------------------------------------------------------- sparse virtual log with a hash reader
+//
+// SparseLog is a VirtualLog in which a few positions hold a different record (Special); the
+// hash of a range without special positions depends only on its length, any other range is
+// split as RFC 6962 says. Reader serves the stored hashes of the first `size` records by
+// inverting the documented dense layout itself (record n is stored at 2n - popcount(n), followed
+// by the subtrees it completes), so proofs can be GENERATED by the implementation for logs of
+// 2^32 .. 2^61 records without storage. Independent of the tlog package's index arithmetic.
+type SparseLog struct {
+	V       *VirtualLog
+	Special map[int64][]byte
+	pos     []int64 // sorted special positions
+	memo    map[[2]int64]tlog.Hash
+}
+
+func NewSparseLog(record []byte, special map[int64][]byte) *SparseLog {
+	s := &SparseLog{V: NewVirtualLog(record), Special: special, memo: map[[2]int64]tlog.Hash{}}
+	for p := range special {
+		s.pos = append(s.pos, p)
+	}
+	for i := range s.pos { // insertion sort, a handful of entries
+		for j := i; j > 0 && s.pos[j] < s.pos[j-1]; j-- {
+			s.pos[j], s.pos[j-1] = s.pos[j-1], s.pos[j]
+		}
+	}
+	return s
+}
+
+func (s *SparseLog) plain(lo, hi int64) bool {
+	for _, p := range s.pos {
+		if lo <= p && p < hi {
+			return false
+		}
+	}
+	return true
+}
+
+// Leaf is the leaf hash of record i.
+func (s *SparseLog) Leaf(i int64) tlog.Hash {
+	if d, ok := s.Special[i]; ok {
+		return RfcLeaf(d)
+	}
+	return s.V.Leaf()
+}
+
+// MTH is the Merkle Tree Hash of records [lo, hi).
+func (s *SparseLog) MTH(lo, hi int64) tlog.Hash {
+	if s.plain(lo, hi) {
+		return s.V.MTH(hi - lo)
+	}
+	if hi-lo == 1 {
+		return s.Leaf(lo)
+	}
+	key := [2]int64{lo, hi}
+	if h, ok := s.memo[key]; ok {
+		return h
+	}
+	k := SplitPoint64(hi - lo)
+	h := RfcNode(s.MTH(lo, lo+k), s.MTH(lo+k, hi))
+	s.memo[key] = h
+	return h
+}
+
+// Root is MTH of the first n records.
+func (s *SparseLog) Root(n int64) tlog.Hash { return s.MTH(0, n) }
+
+func (s *SparseLog) path(m, lo, hi int64) []tlog.Hash {
+	if hi-lo == 1 {
+		return nil
+	}
+	k := SplitPoint64(hi - lo)
+	if m < lo+k {
+		return append(s.path(m, lo, lo+k), s.MTH(lo+k, hi))
+	}
+	return append(s.path(m, lo+k, hi), s.MTH(lo, lo+k))
+}
+
+// Path is PATH(m, D[n]) (0 <= m < n).
+func (s *SparseLog) Path(m, n int64) []tlog.Hash { return s.path(m, 0, n) }
+
+func (s *SparseLog) subproof(m, lo, hi int64, b bool) []tlog.Hash {
+	if m == hi {
+		if b {
+			return nil
+		}
+		return []tlog.Hash{s.MTH(lo, hi)}
+	}
+	k := SplitPoint64(hi - lo)
+	if m <= lo+k {
+		return append(s.subproof(m, lo, lo+k, b), s.MTH(lo+k, hi))
+	}
+	return append(s.subproof(m, lo+k, hi, false), s.MTH(lo, lo+k))
+}
+
+// Proof is PROOF(m, D[n]) (0 < m <= n).
+func (s *SparseLog) Proof(m, n int64) []tlog.Hash { return s.subproof(m, 0, n, true) }
+
+// SpecLeafIndex is the documented position of the leaf hash of record n: 2n - popcount(n).
+func SpecLeafIndex(n int64) int64 {
+	c := int64(0)
+	for x := uint64(n); x != 0; x &= x - 1 {
+		c++
+	}
+	return 2*n - c
+}
+
+// SpecSplitIndex inverts the dense layout: the stored position index holds the hash of the
+// complete subtree of 2^level records ending with record n (binary search on SpecLeafIndex).
+func SpecSplitIndex(index int64) (level int, n int64) {
+	lo, hi := int64(0), index // SpecLeafIndex(index) >= index
+	for lo < hi {             // largest n with SpecLeafIndex(n) <= index
+		mid := lo + (hi-lo+1)/2
+		if SpecLeafIndex(mid) <= index {
+			lo = mid
+		} else {
+			hi = mid - 1
+		}
+	}
+	return int(index - SpecLeafIndex(lo)), lo
+}
+
+// Reader serves the dense hash store of the first size records; Asked collects the indexes.
+func (s *SparseLog) Reader(size int64, asked *[]int64) tlog.HashReaderFunc {
+	return func(indexes []int64) ([]tlog.Hash, error) {
+		out := make([]tlog.Hash, 0, len(indexes))
+		for _, ix := range indexes {
+			if asked != nil {
+				*asked = append(*asked, ix)
+			}
+			if ix < 0 {
+				return nil, fmt.Errorf("sparselog: negative index %d", ix)
+			}
+			lv, n := SpecSplitIndex(ix)
+			if n >= size || lv > 62 || (n+1)&(int64(1)<<uint(lv)-1) != 0 {
+				return nil, fmt.Errorf("sparselog: position %d is not stored in a log of %d records", ix, size)
+			}
+			out = append(out, s.MTH(n+1-int64(1)<<uint(lv), n+1))
+		}
+		return out, nil
+	}
+}
+
+// BoundaryLenRecords draws n records whose lengths sit at the block and buffer boundaries of
+// SHA-256 and of small fixed buffers: 60..70, 127..130, 254..258, 510..514 (random content).
+func BoundaryLenRecords(r *rand.Rand, n int) [][]byte {
+	var lens []int
+	for _, ab := range [][2]int{{60, 70}, {127, 130}, {254, 258}, {510, 514}} {
+		for l := ab[0]; l <= ab[1]; l++ {
+			lens = append(lens, l)
+		}
+	}
+	out := make([][]byte, n)
+	for i := range out {
+		b := make([]byte, lens[(i+r.Intn(2)*r.Intn(len(lens)))%len(lens)])
+		r.Read(b)
+		out[i] = b
+	}
+	return out
+}
+
 // ---------------------------------------------------------------- independent RFC 9162 verification
 
 // RfcVerifyInclusion is RFC 9162 section 2.1.3.2.
